@@ -1,39 +1,8 @@
 import Driver.Util
-import Op2Model.Stream
+import Op2Model.StreamSys
 /-! groups `rd` / `wr` / `copy` (C12, C13, C14), mirrored from harness/drv/stream.cpp -/
 namespace Driver
 open Op2 Op2.Stream
-
-/-- a live reader object of one of the backends under test -/
-inductive Rd where
-  | mem (s : MemR)
-  | file (s : FileR)
-  | fsl (s : Slice FileR)
-  | fss (s : Slice (Slice FileR))
-
-def fslW : Wrapped (Slice FileR) := Slice.asWrapped fileWrapped
-
-namespace Rd
-def pos : Rd → Nat
-  | mem s => s.pos | file s => s.pos
-  | fsl s => Slice.position fileWrapped s | fss s => Slice.position fslW s
-def len : Rd → Nat
-  | mem s => s.data.length | file s => s.data.length | fsl s => s.len | fss s => s.len
-def step : Rd → ROp → Out × Rd
-  | mem s, op => let (o, s') := MemR.step s op; (o, mem s')
-  | file s, op => let (o, s') := RSpec.step s op; (o, file s')     -- in-bounds use only
-  | fsl s, op => let (o, s') := Slice.step fileWrapped s op; (o, fsl s')
-  | fss s, op => let (o, s') := Slice.step fslW s op; (o, fss s')
-/-- the bytes this reader exposes (positions 0..len) -/
-def content : Rd → Bytes
-  | mem s => s.data | file s => s.data
-  | fsl s => (s.w.data.drop s.start).take s.len
-  | fss s => (((s.w.w.data.drop s.w.start).take s.w.len).drop s.start).take s.len
-def read (r : Rd) (k : Nat) : Except Err (Bytes × Rd) :=
-  match r.step (.read k) with
-  | (.bytes b, r') => .ok (b, r')
-  | _ => .error .bounds
-end Rd
 
 def parseNats (s : String) : Option (List Nat) := (s.splitOn ":").mapM (·.toNat?)
 
@@ -160,61 +129,63 @@ def rdHist (backend : String) (data : Bytes) (ops : List String) : Option String
       r := r'
     pure (joinWith "," outs.reverse)
 
-/-- a new stream object derived from an existing one -/
-def deriveObj (r : Rd) (tok : String) : Option (Except Err (Rd × Rd)) :=
+/-- a new stream object derived from an existing one: `S<start>:<len>`, `H<len>`, `C` -/
+def dopOf (tok : String) : Option DOp :=
   let args := ((tok.drop 1).toString.splitOn ":")
-  match tok.front, r with
-  | 'S', .mem m => do
+  match tok.front with
+  | 'S' => do
       let a ← (args[0]?).bind (·.toNat?); let b ← (args[1]?).bind (·.toNat?)
-      pure ((MemR.slice2 m a b).map fun n => (Rd.mem n, r))
-  | 'H', .mem m => do
-      let a ← (args[0]?).bind (·.toNat?)
-      pure ((MemR.slice1 m a).map fun x => (Rd.mem x.1, Rd.mem x.2))
-  | 'C', .mem m => some (.ok (Rd.mem m, r))
-  | 'S', .file f => do
-      let a ← (args[0]?).bind (·.toNat?); let b ← (args[1]?).bind (·.toNat?)
-      pure ((Slice.create fileWrapped { f with pos := 0 } a b).map fun n => (Rd.fsl n, r))
-  | 'H', .file f => do
-      let a ← (args[0]?).bind (·.toNat?)
-      pure (match Slice.create fileWrapped { f with pos := 0 } f.pos a with
-        | .error e => .error e
-        | .ok n => match FileR.fwd f a with
-          | .error e => .error e
-          | .ok f' => .ok (Rd.fsl n, Rd.file f'))
-  | 'C', .file f => some (.ok (Rd.file { f with pos := 0 }, r))      -- a copied FileReader reopens the file
-  | 'S', .fsl s => do
-      let a ← (args[0]?).bind (·.toNat?); let b ← (args[1]?).bind (·.toNat?)
-      pure ((Slice.slice2 fileWrapped s a b).map fun n => (Rd.fsl n, r))
-  | 'H', .fsl s => do
-      let a ← (args[0]?).bind (·.toNat?)
-      pure ((Slice.slice1 fileWrapped s a).map fun x => (Rd.fsl x.1, Rd.fsl x.2))
-  | 'C', .fsl s => some ((Slice.create fileWrapped s.w s.start s.len).map fun n => (Rd.fsl n, r))  -- copy re-initialises at the start
-  | _, _ => none
+      pure (.slice a b)
+  | 'H' => do pure (.here (← (args[0]?).bind (·.toNat?)))
+  | 'C' => some .copy
+  | _ => none
 
+/-- the plain read / seek tokens, as operations of the model -/
+def ropOf (tok : String) : Option ROp :=
+  match tok.front with
+  | 'r' => do pure (.read (← natTail tok))
+  | 'p' => do pure (.readPartial (← natTail tok))
+  | 'k' => do pure (.peek (← natTail tok))
+  | 's' => do pure (.seek (← natTail tok))
+  | 'f' => do pure (.fwd (← natTail tok))
+  | 'b' => do pure (.back (← natTail tok))
+  | 'B' => some .seekBegin
+  | 'E' => some .seekEnd
+  | _ => none
+
+/-- interleaved histories over several objects: every step is `Sys.step` of `Op2Model.StreamSys` (the system the
+    independence theorems of C13 are about); typed helper tokens, which are not `ROp`s, go through `rdOp` -/
 def multiRun (kind : String) (data : Bytes) (steps : List String) : Option String := do
   let r0 ← match kind with
     | "mem" => some (Rd.mem { data := data, pos := 0 })
     | "file" => some (Rd.file { data := data, pos := 0 })
     | _ => none
-  let mut objs : Array Rd := #[r0]
+  let mut objs : Sys := [r0]
   let mut outs : List String := []
   for step in steps do
     let parts := step.splitOn "."
     let id ← (parts[0]?).bind (·.toNat?)
     let tok ← parts[1]?
-    let r ← objs[id]?
     let mut res := ""
-    if tok.front = 'S' ∨ tok.front = 'H' ∨ tok.front = 'C' then
-      match ← deriveObj r tok with
-      | .error _ => res := "err"
-      | .ok (n, r') =>
-        objs := (objs.set! id r').push n
-        res := "new"
-    else
+    let req : Option OOp :=
+      if tok.front = 'S' ∨ tok.front = 'H' ∨ tok.front = 'C' then (dopOf tok).map OOp.derive else (ropOf tok).map OOp.op
+    match req with
+    | some o =>
+      let (x, objs') := Sys.step objs id o
+      objs := objs'
+      res ← match x with
+        | none => none
+        | some (.out y) => some (showOut y)
+        | some (.made _) => some "new"
+        | some .failed => some "err"
+        | some .unsupported => none
+    | none =>
+      if tok.front = 'S' ∨ tok.front = 'H' ∨ tok.front = 'C' then none
+      let r ← objs[id]?
       let (o, r') ← rdOp r tok
-      objs := objs.set! id r'
+      objs := objs.set id r'
       res := o
-    let st := objs.toList.map fun o => s!":{o.pos}/{o.len}"
+    let st := objs.map fun o => s!":{o.pos}/{o.len}"
     outs := (res ++ String.join st) :: outs
   pure (joinWith "," outs.reverse)
 
